@@ -212,6 +212,26 @@ func runC16(c *Check) {
 						}
 						continue
 					}
+					// the sentinel comes from a package-level table of (sentinel, status) rows: the
+					// argument renders as the alternatives the rows hold
+					if at.Op == "phi" {
+						callee := cl.Common().StaticCallee()
+						for _, leaf := range flattenPhi(at) {
+							if leaf.Op != "global" || !strings.HasPrefix(leaf.Name, "da.Err") {
+								continue
+							}
+							nSites++
+							inst := fnShort(fn) + " ⟂ " + fnShort(callee) + "(" + strings.TrimPrefix(leaf.Name, "da.") + ")"
+							if helperIsWireSafe(rp, callee) {
+								c.OK("C16-R2", inst, fnName(fn), rp.InstrPos(in), "classification (row of a package-level table) through a helper that accepts identity or message containment", true)
+							} else if calleeUsesIdentity(rp, callee) {
+								c.Bad("C16-R2", inst, fnName(fn), rp.InstrPos(in), "classification through a helper that compares by identity only", nil)
+							} else {
+								nSites--
+							}
+						}
+						continue
+					}
 					if at.Op == "global" && strings.HasPrefix(at.Name, "da.Err") {
 						callee := cl.Common().StaticCallee()
 						// the helper must be wire-safe: errors.Is(e, target) || strings.Contains(e.Error(), target.Error())
